@@ -4,7 +4,7 @@
     probes). *)
 From stdpp Require Import gmap strings.
 From EV Require Import Base.Str Model.Value Model.Keyspace Model.Reply Model.Prog Model.CmdList Model.CmdSet Model.Dispatch.
-From EV Require Import Spec.SpecSet Proofs.KeyspaceLemmas Proofs.SetProofs.
+From EV Require Import Spec.SpecSet Proofs.KeyspaceLemmas Proofs.SetProofs Proofs.DispatchLemmas.
 Local Open Scope Z_scope.
 
 (** FULL STATEMENT (what the property says): for every finite sequence of argument vectors (any
@@ -100,9 +100,10 @@ Theorem C16_dispatch : forall w c argv,
   exec_cmd w 0 argv =
   (let '(s', r) := exec_set default_pick (conn_db w 0) argv (w_st w) in (World s' (w_conns w), r)).
 Proof.
-  intros w c argv Hargv Hl Hh h Hs. unfold exec_cmd, exec_set. rewrite Hargv.
-  unfold handler_of, first_some. cbn [fold_right]. rewrite Hl, Hh, Hs.
-  by destruct (run_seq _ _ _).
+  intros w c argv Hargv Hl Hh h Hs.
+  assert (Hho : handler_of (lower c) = Some h) by (rewrite handler_of_unfold, Hl, Hh, Hs; done).
+  destruct argv as [|c0 rest]; [discriminate|]. injection Hargv as ->.
+  rewrite (exec_cmd_runs_handler w 0 (c :: rest) c h eq_refl Hho). unfold exec_set. by rewrite Hs.
 Qed.
 Print Assumptions C16_dispatch.
 
